@@ -1049,6 +1049,17 @@ class Converter:
                         f"RHS must be a Call expression for unpacking, found: '{type(rhs)!r}'",
                     )
                 callee, inputs, attrs = self._translate_call_expr(rhs)
+                op_schema = (
+                    None if isinstance(callee, onnxscript.OnnxFunction) else callee.op_schema
+                )
+                if op_schema is not None and not (
+                    op_schema.min_output <= len(lhs.elts) <= op_schema.max_output
+                ):
+                    self._fail(
+                        stmt,
+                        f"Operator '{callee.name}' produces between {op_schema.min_output} and "
+                        f"{op_schema.max_output} outputs, but {len(lhs.elts)} variables are assigned.",
+                    )
 
                 def generate_onnx_name(x: ast.AST):
                     if not isinstance(x, ast.Name):
